@@ -253,7 +253,7 @@ func (r *runner[C]) eval(c C) (fail string) {
 		r.hashes[binary.LittleEndian.Uint64(h[:8])] = struct{}{}
 	}
 	// samples: first case of every class (bounded), so the evidence shows one per class.
-	if len(r.rep.Samples) < 12 && len(raw) <= 6000 {
+	if len(r.rep.Samples) < 12 && len(raw) <= 6000 && !(r.phase == "corpus" && r.rep.Shard != 0) {
 		fresh := len(r.rep.Samples) == 0
 		for _, cl := range res.Classes {
 			if r.perCls[cl] == 0 {
@@ -436,7 +436,7 @@ func Run[C any](t *testing.T, p *Prop[C]) {
 		var last *C
 		var lastMsg string
 		failedOnce := false
-		func() {
+		t.Run("rapid", func(st *testing.T) {
 			defer func() {
 				// rapid ends a failing Check with t.FailNow (Goexit): the deferred
 				// function still runs and sees the last (= minimal) failing case.
@@ -445,7 +445,7 @@ func Run[C any](t *testing.T, p *Prop[C]) {
 				}
 				_ = os.RemoveAll("testdata/rapid")
 			}()
-			rapid.Check(t, func(rt *rapid.T) {
+			rapid.Check(st, func(rt *rapid.T) {
 				c := p.Gen(rt)
 				if !failedOnce {
 					r.rep.RapidRan++
@@ -457,7 +457,7 @@ func Run[C any](t *testing.T, p *Prop[C]) {
 					rt.Fatalf("%s", firstLines(msg, 12))
 				}
 			})
-		}()
+		})
 	}
 	done = true
 	r.flush(true)
